@@ -181,6 +181,58 @@ fn check_case_inner(case: &Case) -> CaseResult {
         .label_if(expected.iter().any(|(b, _)| b.len() > 524_288), "record>512KiB"))
 }
 
+/// A reader that now and then reports end of file with bytes left (a log being appended to) and
+/// goes on at the next call.  What a record cut in two by such an end of file becomes is not
+/// specified, so only what must hold anyway is checked: every returned record is, byte for byte,
+/// the decoding of the valid segment its byte range designates; ranges go forward;
+/// nothing panics; the whole stream ends up read.
+pub fn check_transient_eof(case: &Case) -> CaseResult {
+    super::iovec_sm::with_quarantine(|| {
+        let stream = case.stream.bytes();
+        let mut reader = CyclicReader::new(&stream, &case.delivery);
+        let mut sr = StreamReader::new();
+        let judge = StreamReader::chunk_judge(usize::MAX, None);
+        let mut last_end = 0u64;
+        let mut records = 0usize;
+        let mut idle = 0usize;
+        let mut calls = 0usize;
+        let budget = 64 * (stream.len() + 4);
+        while idle < 12 || reader.pos < stream.len() {
+            calls += 1;
+            if calls > budget {
+                return Err(Fail::new("reader:no-progress", format!("{calls} next_record_bytes calls for a {}-byte stream, {} bytes read", stream.len(), reader.pos)));
+            }
+            let block = case.delivery.block_size_at(calls - 1);
+            let got = sr
+                .next_record_bytes(&mut reader, &judge, block)
+                .map_err(|e| Fail::new("reader:io-error", format!("next_record_bytes failed although the reader only interrupts or reports end of file: {e}")))?;
+            let Some((iovec, range)) = got else {
+                idle += 1;
+                continue;
+            };
+            idle = 0;
+            records += 1;
+            let bytes = iovec.flatten().map_err(|_| Fail::new("reader:pending-placeholder", "returned record has a placeholder pending"))?;
+            let (a, b) = (range.start as usize, range.end as usize);
+            if range.start < last_end || a > b || b > stream.len() {
+                return Err(Fail::new("reader:range", format!("record #{records} has byte range {range:?} (previous record ended at {last_end}, stream has {} bytes)", stream.len())));
+            }
+            last_end = range.end;
+            let segment = &stream[a..b];
+            let decoded = hcobs_ref::decode(segment, LIMIT_FIRST, LIMIT_LATER).ok();
+            // (an FE FD cut in two by such an end of file can no longer be told from data: the segment
+            // may contain one)
+            if decoded.as_deref() != Some(&bytes[..]) {
+                return Err(Fail::new(
+                    "reader:record-is-not-its-range",
+                    format!("record #{records} = {} with byte range {range:?}, but those bytes of the stream are {} (reference decoding: {:?})", show(&bytes), show(segment), decoded.as_deref().map(show)),
+                ));
+            }
+        }
+        Ok(Outcome::new(reader.transient_eofs > 0 && records > 0).label_if(reader.transient_eofs > 0, "transient_eof").label_if(records >= 2, ">=2_records"))
+    })
+}
+
 /// Streams of dozens of records (several arena chunks' worth) read with small blocks.
 pub fn long_case_strategy() -> impl Strategy<Value = Case> {
     (
@@ -363,16 +415,28 @@ pub fn run(ctx: &Ctx, rep: &mut Report) {
     engine::drive(ctx, rep, "block-aligned-tails", aligned_case_strategy(), cases, check_case);
     let cases = ctx.share(ctx.tier.pick(3_200, 100_000));
     engine::drive(ctx, rep, "large-records", large_case_strategy(), cases, check_case);
+    let cases = ctx.share(ctx.tier.pick(30_000, 600_000));
+    let tail = (stream_in::stream_spec(7), stream_in::delivery_with_transient_eof()).prop_map(|(stream, delivery)| Case {
+        stream,
+        delivery,
+        max_size: None,
+        limit: None,
+        nudges: vec![],
+    });
+    engine::drive(ctx, rep, "transient-eof", tail, cases, check_transient_eof);
 }
 
-fn replay(_ctx: &Ctx, _group: &str, case: &Value) -> CaseResult {
+fn replay(_ctx: &Ctx, group: &str, case: &Value) -> CaseResult {
+    if group == "transient-eof" {
+        return check_transient_eof(&parse_case::<Case>(case)?);
+    }
     check_case(&parse_case::<Case>(case)?)
 }
 
 pub fn def() -> PropDef {
     PropDef {
         id: "C06",
-        rule: "A case is (stream description, delivery, judge parameters): streams and deliveries as in C08 (records, torn and corrupted records, garbage, lone FE, 0..3 delimiters after each token, whole-stream truncation; scripted short reads / EINTR, block sizes {0,1,2,3,4,5,7,8,64,4096,70000,default}, arena preparation); in one delivery out of four every next_record_bytes call gets its own io_block_size; the standard judge gets a size limit placed at the decoded size of some valid record -1/0/+1 and an offset limit placed at the start of some segment -1/0/+1 (or none). Oracle: split the stream at every FE FD with an independent splitter, keep non-empty segments up to the first one starting at or after the limit, keep those the reference decoder accepts with decoded size <= max; next_record_bytes must return exactly that list of (bytes, byte range), then None three times, without error or panic; last_sentinel_offset is the start of the last delimiter read. A small log truncated at every byte is enumerated; long-streams uses up to 70 tokens (several arena chunks' worth of records) with block sizes 3..4096, so that reads cross arena chunk boundaries in many alignments; block-aligned-tails lays out valid filler records so that a record with a 00 00 final header (252- or 504-byte payload) or a short record ends 0..4 bytes around an I/O block boundary (blocks 64 / 100 / 256 / 1000 / 2048 / 4096), with the arena flushed between records through the returned record's arena(). large-records: 1..4 tokens built on payloads of up to 140000 bytes (one in nine of 0.5..1.3 MB: more than a default I/O block and than the arena's largest chunk), valid, torn or corrupted, block sizes >= 64 and default. Non-trivial: >= 2 returned records with a skipped (invalid / oversized / empty-payload) segment between two of them, or a read that split an FE|FD pair in a stream with at least one returned record. Distinct: hash of the serialised case.",
+        rule: "A case is (stream description, delivery, judge parameters): streams and deliveries as in C08 (records, torn and corrupted records, garbage, lone FE, 0..3 delimiters after each token, whole-stream truncation; scripted short reads / EINTR, block sizes {0,1,2,3,4,5,7,8,64,4096,70000,default}, arena preparation); in one delivery out of four every next_record_bytes call gets its own io_block_size; the standard judge gets a size limit placed at the decoded size of some valid record -1/0/+1 and an offset limit placed at the start of some segment -1/0/+1 (or none). Oracle: split the stream at every FE FD with an independent splitter, keep non-empty segments up to the first one starting at or after the limit, keep those the reference decoder accepts with decoded size <= max; next_record_bytes must return exactly that list of (bytes, byte range), then None three times, without error or panic; last_sentinel_offset is the start of the last delimiter read. A small log truncated at every byte is enumerated; long-streams uses up to 70 tokens (several arena chunks' worth of records) with block sizes 3..4096, so that reads cross arena chunk boundaries in many alignments; block-aligned-tails lays out valid filler records so that a record with a 00 00 final header (252- or 504-byte payload) or a short record ends 0..4 bytes around an I/O block boundary (blocks 64 / 100 / 256 / 1000 / 2048 / 4096), with the arena flushed between records through the returned record's arena(). large-records: 1..4 tokens built on payloads of up to 140000 bytes (one in nine of 0.5..1.3 MB: more than a default I/O block and than the arena's largest chunk), valid, torn or corrupted, block sizes >= 64 and default. transient-eof: the reader now and then returns Ok(0) with bytes left and goes on later; what becomes of a record cut in two that way is not specified, so only this is checked: each returned record is exactly the reference decoding of the segment its byte range designates, ranges go forward, nothing panics, the stream ends up read. Non-trivial: >= 2 returned records with a skipped (invalid / oversized / empty-payload) segment between two of them, or a read that split an FE|FD pair in a stream with at least one returned record. Distinct: hash of the serialised case.",
         assumptions: &[
             "only the standard judge (chunk_judge) is modelled",
             "readers only deliver short reads and Interrupted errors",
